@@ -758,7 +758,7 @@ func FuzzChunks(f *testing.F) {
 	f.Add([]byte(`[1] [2] "a" 3 `), uint8(3), uint8(1))
 	f.Add([]byte(`{a:b c:[1 2 'x y']}`), uint8(2), uint8(4))
 	f.Fuzz(func(t *testing.T, data []byte, sz uint8, mode uint8) {
-		cs := Case{Input: data, Lang: "json", Mode: []string{"single", "cb", "cbbool", "chan"}[int(mode)%4]}
+		cs := Case{Input: data, Lang: "json", Mode: []string{"single", "cb", "cbbool", "chan"}[int(mode)%4], Enum: true} // Enum: not counted for the generator floors
 		if mode&4 != 0 {
 			cs.Lang = "sen"
 		}
